@@ -3,6 +3,12 @@ def E(f, old, new, count=1):
 
 X = 'wn/_export.py'
 MUTANTS = [
+    {'name': 'subcat-sorts-idless-frames', 'expect': 'C03-R13',
+     'edits': [E(X, "            sense['subcat'] = sorted(sbid for sbid, _ in sbmap[id] if sbid)", "            sense['subcat'] = sorted(sbid for sbid, _ in sbmap[id])")]},
+    {'name': 'subcat-joins-idless-frames', 'expect': 'C03-R13',
+     'edits': [E(X, "            sense['subcat'] = sorted(sbid for sbid, _ in sbmap[id] if sbid)", "            sense['subcat'] = ' '.join(sbid for sbid, _ in sbmap[id]).split()")]},
+    {'name': 'benign-subcat-filter-is-not-none', 'expect': 'silent',
+     'edits': [E(X, "            sense['subcat'] = sorted(sbid for sbid, _ in sbmap[id] if sbid)", "            sense['subcat'] = sorted(sbid for sbid, _ in sbmap[id] if sbid is not None and sbid)")]},
     {'name': 'revert-sbmap-guard', 'expect': 'C03-R2',
      'edits': [E(X, """    for sbid, frame, sids in find_syntactic_behaviours(lexicon_rowids=lexids):
         for sid in sids:
